@@ -238,6 +238,15 @@ class Ctx:
         if k == "bal":
             mv = pt.AssetHolding.balance(pt.Int(0), pt.Int(e[1]))
             return pt.Seq(mv, mv.value())
+        if k == "zoo":
+            args = [self.expr(a) for a in e[-1]]
+            if e[1] == "fn":
+                return getattr(pt, e[2])(*args)
+            f = getattr(getattr(pt, e[2]), e[3])
+            if e[1] == "maybe":
+                mv = f(*args)
+                return pt.Seq(mv, mv.value())
+            return f(*args)
         if k == "needv":
             return _needv(e[1], env.spec.get("mode", "app"))
         if k == "wide":
